@@ -18,7 +18,7 @@ def configs(ctx):
 
 def run(ctx):
     sessfam.standard_run(ctx, PID, FAMILY, PROPS, configs(ctx), quick_budget=15000, thorough_budget=250000,
-                         quick_bounds={'maxIn': 6, 'maxOut': 3}, thorough_bounds={'maxIn': 6, 'maxOut': 4},
+                         quick_bounds={'maxIn': 6, 'maxOut': 3, 'maxEp': 0}, thorough_bounds={'maxIn': 6, 'maxOut': 4, 'maxEp': 0},
                          statement='gate on FromApp/FromAdmin/logon, mandated reactions, RefSeqNum, reversed routing')
 
 
